@@ -345,7 +345,7 @@ def policy_clauses(prog, arg):
                         else:
                             repl = z3.BoolVal(True)
                         if val[p] is None:
-                            neg.append(("%s is Err although the substitute-latitude time exists" % p, z3.And(repl, z3.BoolVal(True))))
+                            neg.append(("%s is Err although the substitute-latitude time exists" % p, z3.And(repl, r_[p][0], z3.Not(on))))
                             continue
                         if p in ("Fajr", "Isha") and (val["Shurooq" if p == "Fajr" else "Maghrib"] is None):
                             neg.append(("%s is not the substitute-latitude time (flagged)" % p,
